@@ -12,6 +12,7 @@ import (
 	"github.com/skycoin/skycoin/src/coin"
 	"github.com/skycoin/skycoin/src/transaction"
 	"github.com/skycoin/skycoin/src/visor"
+	"github.com/skycoin/skycoin/src/visor/dbutil"
 
 	"verifsim/model"
 	"verifsim/sim"
@@ -983,9 +984,44 @@ func min64(a, b uint64) uint64 {
 
 func (s *ledgerSim) opRestart() {
 	n := s.pickNode()
+	var before map[string]string
+	rebuild := s.prop == "C07" && s.c.T.Chance("restart-forces-rebuild", 1, 2)
+	if rebuild {
+		// Rebuilding the indexes and history from the stored blocks must give the same data:
+		// drop the two markers that make visor.New trust the derived buckets.
+		var err error
+		if before, err = logicalDump(n.db); err != nil {
+			sim.Harnessf("dump: %v", err)
+		}
+		n.stop()
+		db, err := openBolt(n.path)
+		if err != nil {
+			sim.Harnessf("reopen: %v", err)
+		}
+		err = db.Update("verif drop index markers", func(tx *dbutil.Tx) error {
+			if b := tx.Bucket([]byte("unspent_meta")); b != nil {
+				if err := b.Delete([]byte("addr_index_height")); err != nil {
+					return err
+				}
+			}
+			if b := tx.Bucket([]byte("history_meta")); b != nil {
+				return b.Delete([]byte("parsed_height"))
+			}
+			return nil
+		})
+		db.Close()
+		if err != nil {
+			sim.Harnessf("drop markers: %v", err)
+		}
+		s.c.Count("fault.forced_index_history_rebuild")
+	}
 	n.stop()
 	s.c.Count("fault.restart")
 	if err := n.start(); err != nil {
+		if rebuild {
+			s.c.Violate("rebuild-failed", "rebuild-start-error", "node %d cannot start when its indexes and history have to be rebuilt from the stored blocks (chain length %d): %v", n.id, len(n.m.Chain), err)
+			return
+		}
 		s.c.Violate("restart-failed", "restart", "node %d failed to restart on its own database: %v", n.id, err)
 		return
 	}
@@ -995,7 +1031,21 @@ func (s *ledgerSim) opRestart() {
 		s.desync = true
 	}
 	s.c.Kind(kRestart, true)
-	s.c.Logf("restart n%d", n.id)
+	s.c.Logf("restart n%d rebuild=%v", n.id, rebuild)
+	if rebuild {
+		after, err := logicalDump(n.db)
+		if err != nil {
+			sim.Harnessf("dump: %v", err)
+		}
+		// Init may have dropped invalid pool entries: compare only what is derived from the chain
+		for _, k := range []string{"unconfirmed_txns", "unconfirmed_unspents"} {
+			delete(before, k)
+			delete(after, k)
+		}
+		if d := diffDump(before, after); len(d) > 0 {
+			s.c.Violate("rebuild-differs", "buckets:"+fmt.Sprint(d), "node %d: rebuilding indexes and history from the stored blocks (chain length %d) changed buckets %v", n.id, len(n.m.Chain), d)
+		}
+	}
 }
 
 // ---- invariants after every step -----------------------------------------
